@@ -48,7 +48,7 @@ pub mod sync {
         /// ring arithmetic under a symbolic "was anything sent?" guard is what exhausted memory). Shared by
         /// sender and receiver through a raw, intentionally leaked pointer (single-threaded by construction).
         pub const QCAP: usize = 4;
-        struct Chan<T> { s0: Option<T>, s1: Option<T>, s2: Option<T>, s3: Option<T>, len: usize, cap: usize, rx_alive: bool }
+        struct Chan<T> { s0: Option<T>, s1: Option<T>, s2: Option<T>, s3: Option<T>, len: usize, cap: usize, rx_alive: bool, close_when_idle: bool }
         impl<T> Chan<T> {
             /// slot `len` is empty by the queue invariant: written WITHOUT dropping the old content (an
             /// assignment would run the drop glue of `Option<T>` on a heap value whose tag CBMC does not fold -
@@ -76,7 +76,7 @@ pub mod sync {
         }
         pub fn channel<T>(cap: usize) -> (Sender<T>, Receiver<T>) {
             let cap = if cap > QCAP { QCAP } else { cap };
-            let c = Box::into_raw(Box::new(Chan { s0: None, s1: None, s2: None, s3: None, len: 0, cap, rx_alive: true }));
+            let c = Box::into_raw(Box::new(Chan { s0: None, s1: None, s2: None, s3: None, len: 0, cap, rx_alive: true, close_when_idle: false }));
             (Sender { chan: c }, Receiver { chan: c })
         }
         impl<T> Sender<T> {
@@ -133,6 +133,15 @@ pub mod sync {
                 match self.rx.try_recv() { Ok(t) => Some(t), Err(_) => crate::never_completes() }
             }
         }
+        impl<'a, T> crate::TryNow for RecvFut<'a, T> {
+            type Out = Option<T>;
+            fn try_now(&mut self, idle: bool) -> Option<Option<T>> {
+                match self.rx.try_recv() {
+                    Ok(t) => Some(Some(t)),
+                    Err(_) => if idle && unsafe { (*self.rx.chan).close_when_idle } { Some(None) } else { None },
+                }
+            }
+        }
         impl<'a, T> core::future::Future for RecvFut<'a, T> {
             type Output = Option<T>;
             fn poll(mut self: core::pin::Pin<&mut Self>, _: &mut core::task::Context<'_>) -> core::task::Poll<Self::Output> {
@@ -159,6 +168,10 @@ pub mod sync {
                 RecvFut { rx: self }
             }
             pub fn close(&mut self) { unsafe { (*self.chan).rx_alive = false; } }
+            /// Model control: "all senders go away once the system is idle" - a `select!` that finds nothing ready
+            /// and no timer task left sees this channel as closed (recv -> None). Lets a harness run a real
+            /// `loop { select! {..} }` to quiescence and get control back.
+            pub fn model_close_when_idle(&mut self) { unsafe { (*self.chan).close_when_idle = true; } }
             pub fn len(&self) -> usize { unsafe { (*self.chan).len } }
         }
     }
@@ -459,7 +472,55 @@ pub fn spawn<F: FnOnce() -> R + 'static, R>(f: F) -> task::JoinHandle<R> {
     task::JoinHandle(core::marker::PhantomData)
 }
 
+/// "Is this model future ready right now?" - what the model `select!` asks of its branches. `idle`: nothing in
+/// the system is ready and no timer task is left (see `Receiver::model_close_when_idle`).
+pub trait TryNow {
+    type Out;
+    fn try_now(&mut self, idle: bool) -> Option<Self::Out>;
+}
+impl TryNow for Pending {
+    type Out = ();
+    fn try_now(&mut self, _idle: bool) -> Option<()> { None }
+}
+impl TryNow for time::Sleep {
+    type Out = ();
+    fn try_now(&mut self, _idle: bool) -> Option<()> { Some(()) }
+}
+pub enum Sel2<A, B> { A(A), B(B) }
+pub enum Sel3<A, B, C> { A(A), B(B), C(C) }
+/// harness switch: branch order of the model `select!` (real tokio picks at random among the ready branches;
+/// the model offers the two extreme schedules: first ready branch in source order, or in reverse order)
+pub static mut SELECT_REVERSED: bool = false;
+pub fn model_select_reversed(on: bool) { unsafe { SELECT_REVERSED = on } }
+/// Model of a two-branch `select!`: a ready branch wins; if none is ready the oldest timer task runs ("time passes
+/// only when everything is idle") and the branches are asked again; idle without timers: channels marked
+/// close-when-idle report closed, otherwise the select never completes (pruned path).
+pub fn model_select2<F1: TryNow, F2: TryNow>(f1: &mut F1, f2: &mut F2) -> Sel2<F1::Out, F2::Out> {
+    let mut idle = false;
+    loop {
+        if unsafe { SELECT_REVERSED } {
+            if let Some(v) = f2.try_now(idle) { return Sel2::B(v); }
+            if let Some(v) = f1.try_now(idle) { return Sel2::A(v); }
+        } else {
+            if let Some(v) = f1.try_now(idle) { return Sel2::A(v); }
+            if let Some(v) = f2.try_now(idle) { return Sel2::B(v); }
+        }
+        if idle { never_completes() }
+        if !model_tasks::run_next() { idle = true; }
+    }
+}
 #[macro_export]
 macro_rules! select {
-    ($($t:tt)*) => { panic!("tokio::select! is not modelled") };
+    ($p1:pat = $e1:expr => $b1:expr, $p2:pat = $e2:expr => $b2:expr $(,)?) => {{
+        let __sel = {
+            let mut __f1 = $e1;
+            let mut __f2 = $e2;
+            $crate::model_select2(&mut __f1, &mut __f2)
+        };
+        match __sel {
+            $crate::Sel2::A($p1) => $b1,
+            $crate::Sel2::B($p2) => $b2,
+        }
+    }};
+    ($($t:tt)*) => { panic!("tokio::select! with this shape is not modelled") };
 }
